@@ -1,0 +1,5 @@
+//go:build !verif
+
+package litefs
+
+func verifStep(db *DB, kind string, arg uint32, internal bool) {}
